@@ -105,6 +105,8 @@ var nbHostile = []string{
 	"line1\nline2", "\nleading break", "trailing break\n", "\n", "\n\n", "a\n\nb", "  leading spaces", "trailing spaces  ", " ", "\ttab", "a\tb", "tab\t", "\r", "a\r\nb", "\r\n",
 	"\x00", "a\x00b", "\x01\x02", "\x1b[31mred", "\x7f", "bell\x07", "\xff", "\xc3\x28", "ok\xf0\x28\x8c\x28", "\xe2\x82", "caf\xc3\xa9", "日本語", "\u2028sep", "\u0085nel", "\ufeffbom", "emoji 😀",
 	"tar -czf backup.tar.gz /home/user", "docker ps -a --format 'table {{.Names}}\\t{{.Status}}'", "find . -name '*.go' -exec gofmt -w {} \\;",
+	// multi-line texts with indentation (block scalars whose first line is indented decode differently at different nesting depths)
+	"  make build\n  make test", "   a\n b", "\tfirst\n\tsecond", "  x\n", " \n y", "for f in *.log; do\n  gzip \"$f\"\ndone\n", "line\r\n", "two\n\n",
 	"cat file.txt | wc -l | awk '{print \"Lines:\" $1}'", "grep ERROR /var/log/app.log | tail -20 | sort", "echo $HOME && ls > out.txt", "a\\b", "\\n", "C:\\path",
 }
 
